@@ -903,8 +903,10 @@ def c13_case(tokens):
     src = " ".join(tokens)
     balanced, reason = recognise(tokens)
     ops = C13_SETUP + ["evc build " + hexs(src), "evc smv " + hexs(src), "evc sfv " + hexs(src), "evc srv " + hexs(src)]
-    if len(tokens) <= 3:      # every typed entry point must reject what the untyped ones reject
-        ops += ["evc %s%s%s %s" % (lv, mo, ty, hexs(src)) for lv in "sn" for mo in "fr" for ty in "ifnbste"]
+    if len(tokens) <= 3:      # every typed entry point must reject what the untyped ones reject, however the tokens are spaced
+        tight = G.render(tokens, G.random.Random(0), "tight")
+        for text in ([src] if tight == src else [src, tight, " " + tight + " "]):
+            ops += ["evc %s%s%s %s" % (lv, mo, ty, hexs(text)) for lv in "sn" for mo in "fr" for ty in "ifnbste"]
     return (G.script("H", ops), {"kind": "token-seq-eval", "src": src, "balanced": balanced, "reason": reason})
 
 
